@@ -65,15 +65,16 @@ def gen_ns(ctx, num, depth):
     return behs
 
 
-def namespaces(ctx, binary):
+def namespaces(ctx, binary, prefixes=("C02/",), mc=True):
     """Bindings with a static namespace list and namespace.labelSelector: spec/Snapshot/SnapshotNs.tla."""
     q = ctx.quick()
-    big = None if q else {"DynNs": '{"n1", "n2", "n3"}', "Vals": '{"v1"}', "MaxNsOps": "4"}
-    r = vlib.tlc(ctx, SPEC, "SnapshotNs", "MCNs.cfg", timeout=3000, expect_violation=False, workers=12, consts=big)
-    ctx.log("TLC SnapshotNs/MCNs (label-selected namespaces, reference): %d generated / %d distinct states, %.0fs" % (r["generated"], r["distinct"], r["wall_s"]))
-    vlib.tlc(ctx, SPEC, "SnapshotNs", "MCNs_asis.cfg", timeout=300, expect_violation="KnownFollowsLabel", workers=4)
-    r2 = vlib.tlc(ctx, SPEC, "SnapshotNs", "MCNs_asis_only.cfg", timeout=3000, expect_violation=False, workers=12, consts=big)
-    ctx.log("TLC: the code as it is deviates only by namespaces that stop matching between AddMonitor and StartMonitor (%d distinct states)" % r2["distinct"])
+    if mc:  # the exhaustive runs belong to C02's check; C01 reuses the behaviours and the harness only
+        big = None if q else {"DynNs": '{"n1", "n2", "n3"}', "Vals": '{"v1"}', "MaxNsOps": "4"}
+        r = vlib.tlc(ctx, SPEC, "SnapshotNs", "MCNs.cfg", timeout=3000, expect_violation=False, workers=12, consts=big)
+        ctx.log("TLC SnapshotNs/MCNs (label-selected namespaces, reference): %d generated / %d distinct states, %.0fs" % (r["generated"], r["distinct"], r["wall_s"]))
+        vlib.tlc(ctx, SPEC, "SnapshotNs", "MCNs_asis.cfg", timeout=300, expect_violation="KnownFollowsLabel", workers=4)
+        r2 = vlib.tlc(ctx, SPEC, "SnapshotNs", "MCNs_asis_only.cfg", timeout=3000, expect_violation=False, workers=12, consts=big)
+        ctx.log("TLC: the code as it is deviates only by namespaces that stop matching between AddMonitor and StartMonitor (%d distinct states)" % r2["distinct"])
     behs = gen_ns(ctx, ctx.pick(200, 2400), 45)
     cases = [{"steps": b} for b in behs]
     rows = vlib.run_sharded(ctx, binary, cases, lambda i, o: ["-mode", "ns", "-in", i, "-out", o], shards=8, timeout=1800, tag="snapns")
@@ -84,7 +85,10 @@ def namespaces(ctx, binary):
         for s in c["steps"][1:]:
             acts[s["act"][0]] = acts.get(s["act"][0], 0) + 1
         if not o["ok"]:
-            if o["sig"].startswith("C02/"):
+            for x in o.get("also") or []:
+                if not any(o["sig"].startswith(p) for p in prefixes) and any(x["sig"].startswith(p) for p in prefixes):
+                    o["sig"], o["detail"] = x["sig"], x["detail"]
+            if any(o["sig"].startswith(p) for p in prefixes):
                 ctx.fail(o["sig"], o["detail"], vlib.replay_payload("snap", ["-mode", "ns", "-in", "{in}", "-out", "{out}"], c,
                          human={"actions": [s["act"] for s in c["steps"][1:o.get("bad_step", 0) + 1]], "initial": c["steps"][0]["cluster"], "labelled": c["steps"][0]["nsMatch"]}))
             else:
